@@ -9,10 +9,14 @@ import (
 	"os"
 	"strings"
 	"sync"
+	"time"
 
+	"github.com/glowlabs-org/gca-backend/client"
+	"github.com/glowlabs-org/gca-backend/server"
 	"pgregory.net/rapid"
 
 	"verif/harness/ref"
+	"verif/harness/world"
 )
 
 // keyGen draws a key pair from rapid-drawn seed bytes (so replays use the
@@ -178,3 +182,36 @@ func finiteFloat(t *rapid.T, name string) float64 {
 }
 
 func bigStr(v uint64) string { return new(big.Int).SetUint64(v).String() }
+
+// clientLockFree reports whether the client's mutex can be taken. A mutex that
+// was leaked stays held for ever; one that another goroutine holds for a few
+// microseconds (a sync round picking its server, a handler about to return)
+// must not be mistaken for it, so the probe is repeated for up to half a
+// second of active time before it answers no.
+func clientLockFree(c *client.Client) bool {
+	return world.WaitActive(500*time.Millisecond, time.Millisecond, c.VerifTryLock)
+}
+
+// serverLocksFree is the same probe for the server's two mutexes.
+func serverLocksFree(S *server.GCAServer) (a, b bool) {
+	world.WaitActive(500*time.Millisecond, time.Millisecond, func() bool {
+		a, b = S.VerifTryLocks()
+		return a && b
+	})
+	return a, b
+}
+
+// fixtureMaxAge is how long a test that keeps ONE server or client for many
+// cases may use it before taking a fresh one: an instance of the test build
+// ends the process when it is 120 s old (VERIF_FIXTURE_MAX_AGE_MS shortens it
+// to exercise the renewal path).
+var fixtureMaxAge = func() time.Duration {
+	if v := os.Getenv("VERIF_FIXTURE_MAX_AGE_MS"); v != "" {
+		var ms int
+		fmt.Sscanf(v, "%d", &ms)
+		if ms > 0 {
+			return time.Duration(ms) * time.Millisecond
+		}
+	}
+	return 50 * time.Second
+}()
